@@ -327,18 +327,19 @@ func (s *Service) accountsForEpochWithFilter(ctx context.Context, epoch phase0.E
 		api.ValidatorStateWithdrawalDone:     0,
 	}
 
+	// Take the public keys and the accounts of the same refresh; a refresh replaces both, it does not alter them.
 	s.mutex.RLock()
 	pubKeys := s.pubKeys
+	accounts := s.accounts
 	s.mutex.RUnlock()
 
 	validators := s.validatorsManager.ValidatorsByPubKey(ctx, pubKeys)
 	validatingAccounts := make(map[phase0.ValidatorIndex]e2wtypes.Account, len(validators))
-	s.mutex.RLock()
 	for index, validator := range validators {
 		state := api.ValidatorToState(validator, nil, epoch, s.farFutureEpoch)
 		stateCount[state]++
 		if filterFunc(state) {
-			account := s.accounts[validator.PublicKey]
+			account := accounts[validator.PublicKey]
 			s.log.Trace().
 				Str("name", account.Name()).
 				Str("public_key", fmt.Sprintf("%x", account.PublicKey().Marshal())).
@@ -353,7 +354,6 @@ func (s *Service) accountsForEpochWithFilter(ctx context.Context, epoch phase0.E
 				Msg(fmt.Sprintf("Non-%s account", strings.ToLower(accountType)))
 		}
 	}
-	s.mutex.RUnlock()
 
 	// Update metrics if this is the current epoch.
 	if epoch == s.currentEpochProvider.CurrentEpoch() {
@@ -388,8 +388,10 @@ func (s *Service) accountsForEpochByIndexWithFilter(ctx context.Context, epoch p
 	))
 	defer span.End()
 
+	// Take the public keys and the accounts of the same refresh; a refresh replaces both, it does not alter them.
 	s.mutex.RLock()
 	pubKeys := s.pubKeys
+	accounts := s.accounts
 	s.mutex.RUnlock()
 
 	indexPresenceMap := make(map[phase0.ValidatorIndex]bool)
@@ -404,9 +406,7 @@ func (s *Service) accountsForEpochByIndexWithFilter(ctx context.Context, epoch p
 		}
 		state := api.ValidatorToState(validator, nil, epoch, s.farFutureEpoch)
 		if filterFunc(state) {
-			s.mutex.RLock()
-			validatingAccounts[index] = s.accounts[validator.PublicKey]
-			s.mutex.RUnlock()
+			validatingAccounts[index] = accounts[validator.PublicKey]
 		}
 	}
 
